@@ -5,6 +5,7 @@ from reamber.osu.OsuMap import OsuMap
 from reamber.osu.lists.OsuBpmList import OsuBpmList
 from reamber.osu.lists.notes.OsuHitList import OsuHitList
 from reamber.osu.lists.notes.OsuHoldList import OsuHoldList
+from reamber.sm.SMMapMeta import SMMapChartTypes
 from reamber.sm.SMMapSet import SMMapSet
 
 
@@ -27,6 +28,9 @@ class SMToOsu(ConvertBase):
                 dict(offset="offset", column="column", length="length"),
             )
             osu.bpms = cls.cast(sm.bpms, OsuBpmList, dict(offset="offset", bpm="bpm"))
+            keys = SMMapChartTypes.get_keys(sm.chart_type)
+            if keys:
+                osu.circle_size = keys
 
             osu.background_file_name = sms.background
             osu.title = sms.title
